@@ -736,7 +736,8 @@ def c02(ctx):
     vlib.vocab_json()
     q = ctx.quick()
     # the loops of the evaluators as a state machine: bounded iteration counts, termination under weak fairness
-    lcfg = "CONSTANTS W = 8\nNMax = %d\nSPECIFICATION Spec\nINVARIANT Bounded CapIndependent\nPROPERTY Terminates\nCHECK_DEADLOCK FALSE\n" % (300 if q else 1500)
+    # (the arguments must be W-bit numbers for Lame's bound EuclidCap: NMax <= 2^(W-1) - 1 ... except that factorial arguments above the cap are the point)
+    lcfg = "CONSTANTS W = %d\nNMax = %d\nSPECIFICATION Spec\nINVARIANT Bounded CapIndependent\nPROPERTY Terminates\nCHECK_DEADLOCK FALSE\n" % ((10, 300) if q else (12, 1500))
     lr = vlib.tlc("Loops", lcfg, "C02_loops", workers=8, timeout=3600)
     vlib.tlc_ok(lr, "Loops")
     log("TLC Loops: %d states, %d distinct, %.0fs%s" % (lr["states"], lr["distinct"], lr["wall_s"], (" VIOLATED " + str(lr["violated"])) if lr["violated"] else ""))
